@@ -191,7 +191,7 @@ def model_facets(run):
 
 
 def bounded(run):
-    cnt = 40 if run.tier == "quick" else 400
+    cnt = 40 if run.tier == "quick" else 400 * run.tmul
     jobs = [dict(seed=run.seed * 41 + k, count=cnt // 4) for k in range(4)]
     res, errs = native.pmap("contracts.C17", "nat_files", jobs)
     run.worker_errors(errs, len(jobs))
